@@ -11,3 +11,5 @@ import Carapace.Props.C12
 import Carapace.Props.C13
 import Carapace.Props.C17
 import Carapace.Props.C09
+import Carapace.Props.C14
+import Carapace.Props.C15
